@@ -26,7 +26,7 @@ for pid in ALL:
     })
 man = {
     "version": 1,
-    "setup_cmd": "cd /verif && python3 -m lib.regen_all && cd lean && lake build && cd /verif && python3 -m lib.cbuild asan",
+    "setup_cmd": "cd /verif && python3 -m lib.regen_all && cd lean && lake build && cd /verif && python3 -m lib.cbuild asan && python3 -m lib.cbuild debug && python3 -m lib.cbuild plain",
     "hooks": {"guard": "AWS_C_COMMON_VERIF", "enable": "no source hooks: harnesses compile /repo sources directly (lib/cbuild.py), with -include harness/verif_atomics.h and -Wl,--wrap where schedule points are needed",
               "baseline_off_cmd": "cmake --build /repo/_build && ctest --test-dir /repo/_build -j8 --timeout 900", "source_commits": [], "add_only": True},
     "engines": [{"name": "lean4-proof+correspondence", "path": "/verif/check.py",
